@@ -9,7 +9,7 @@ from ..cfg import cfg_of
 from ..dag import T
 from ..model import FunctionInfo, ClassInfo
 from ..report import Ctx, PASS, VIOLATION, UNKNOWN
-from ..util import norm, parents, fn_body_nodes, walk_local, kwarg
+from ..util import name_free, norm, parents, fn_body_nodes, walk_local, kwarg
 
 SET_METHODS_RET_SET = {"union", "intersection", "difference", "symmetric_difference", "copy"}
 ORDER_FREE_CALLS = {"len", "set", "frozenset", "any", "all", "bool", "isinstance", "max", "min", "id", "type", "repr", "str", "print"}
@@ -20,12 +20,12 @@ SET_MUTATORS = {"add", "update", "discard", "remove", "clear", "difference_updat
                 "issubset", "issuperset", "isdisjoint", "symmetric_difference_update"}
 
 # Sites the generic rule cannot decide, confirmed by reading; one line of reason each.  Keyed by
-# (function, normalised construct).  `recheck` names a condition that is re-verified on every run.
+# (function, construct with locals replaced by their definitions, see util.name_free).  `recheck` names a condition that is re-verified on every run.
 TRIAGE = {
-    ("MarkovDecisionProcess.reachable_states", "frontier.pop()"): dict(
+    ("MarkovDecisionProcess.reachable_states", "set({_ for _, _ in self.initial_state_dist().items() if _ > 0}).pop()"): dict(
         verdict=PASS, recheck="no_max_states_callers",
         reason="pop() drives a closure worklist; the closure is order-free as long as no caller passes the max_states cut-off"),
-    ("DoubleQLearning._training", "for s in set(q1.keys()) | set(q2.keys())"): dict(
+    ("DoubleQLearning._training", "for _ in set(self._initial_q_table(mdp).keys()) | set(self._initial_q_table(mdp).keys())"): dict(
         verdict=PASS,
         reason="fills a result mapping that is looked up by key (policy) and compared with ==; every value is computed per key"),
 }
@@ -307,13 +307,13 @@ def rule_rng6(ctx: Ctx, G: CallGraph, fns: List[FunctionInfo], rule: str = "RNG-
             verdict, reason = r
             par = pm.get(id(node))
             if isinstance(par, (ast.For, ast.AsyncFor)):
-                construct = f"for {norm(par.target, 30)} in {norm(node, 60)}"
+                construct = f"for _ in {name_free(fi, node)}"
             elif isinstance(par, ast.Attribute):
-                construct = norm(pm.get(id(par)), 70)
+                construct = name_free(fi, pm.get(id(par)))
             elif isinstance(par, ast.comprehension):
-                construct = norm(pm.get(id(par)), 80)
+                construct = f"comprehension over {name_free(fi, node)}"
             else:
-                construct = norm(par, 80)
+                construct = name_free(fi, par)
             from ..report import short_fn
             tri = TRIAGE.get((short_fn(fi), construct))
             if tri is not None and verdict == UNKNOWN:
